@@ -138,6 +138,25 @@ fn run_sched(args: &[String]) -> i32 {
         stats.capped = before.1 || stats.capped;
     }
 
+    // C10 "an error in a step": errors of macro-registered steps, end to end
+    let mut extras = 0usize;
+    if prop == "C10" && si == 0 {
+        for round in 0..2 {
+            let vs = vcore::zoo::c10_macro_errors();
+            extras += 1;
+            if round == 0 {
+                for (key, msg) in vs {
+                    violations.push(json!({
+                        "property": prop, "family": "macro-errors", "index": 0, "tier": tier_s,
+                        "extra": "c10-macro-errors", "schedule": [], "key": key, "message": msg,
+                        "finding": serde_json::Value::Null, "deterministic": true,
+                    }));
+                }
+            }
+        }
+    }
+    stats.execs += extras;
+
     let res = json!({
         "property": prop,
         "tier": tier_s,
@@ -416,6 +435,13 @@ fn run_replay(args: &[String]) -> i32 {
     }
     if engine != "sched" {
         return vcore::hist::replay(&j);
+    }
+    if j["extra"].as_str() == Some("c10-macro-errors") {
+        let vs = vcore::zoo::c10_macro_errors();
+        for (k, m) in &vs {
+            println!("violation C10 [{k}]: {m}");
+        }
+        return i32::from(!vs.is_empty());
     }
     let prop = j["property"].as_str().unwrap().to_owned();
     let fam = j["family"].as_str().unwrap();
